@@ -16,6 +16,12 @@
 (*                 the test modules); the system hands out an ident that no  *)
 (*                 running thread has - possibly one a finished thread had   *)
 (*                 before (ReuseIdents)                                      *)
+(*   HookStart(th) a thread is started between two tests (or before the      *)
+(*                 first) by the per-test layer hook (testSetUp) of the test *)
+(*                 that is about to start: startTest calls the hook *before* *)
+(*                 it takes the snapshot, so the thread exists before the    *)
+(*                 test (the same holds for a TestCase.run override that     *)
+(*                 starts a helper before super().run())                     *)
 (*   End(th)       a running thread finishes (released by any later test)    *)
 (*   Adopt(th)     a running low-level thread becomes known to threading     *)
 (*                 (it calls threading.current_thread() for the first time:  *)
@@ -42,7 +48,9 @@
 (*                                                                           *)
 (* P-spec: report (of test k, when it has stopped) = threads started during  *)
 (* test k, still running at its end, not ignored.  Threads that exist before *)
-(* the first test (startedIn = 0) are never reported.  The statement does    *)
+(* the first test (startedIn = 0) and threads started by the per-test layer  *)
+(* hook of test k+1 before that test began (startedIn = Hk(k+1), no test     *)
+(* number) are never reported.  The statement does                           *)
 (* not say *when* a thread's name is looked at.  The only name a runner can  *)
 (* see is the one the thread carries when the test ends (the name at report  *)
 (* time is what the ignore patterns see), and that name decides - except in  *)
@@ -66,7 +74,12 @@
 (* (the snapshot of the first test is reused), "ProxyEqName" (two proxies    *)
 (* are equal only if ident AND name agree: an adopted thread no longer       *)
 (* equals its own snapshot entry), "OnePerName" (of several new threads with *)
-(* the same name only one is reported).                                      *)
+(* the same name only one is reported), "SnapshotFromPrevStop" (the threads  *)
+(* found running at the end of the previous test are taken for the snapshot  *)
+(* of the next one; only the first test enumerates at its start: whatever is *)
+(* started between the two tests counts as started by the second).           *)
+(* hist: <<"hookstart", th, ignored, api, name>> after test k's stop: started *)
+(* by the testSetUp hook of the next test.                                   *)
 EXTENDS Naturals, Sequences, FiniteSets, TLC
 
 CONSTANTS NT, NTh, NI, ReuseIdents, Deviations, MaxOps, Apis,
@@ -76,12 +89,14 @@ CONSTANTS NT, NTh, NI, ReuseIdents, Deviations, MaxOps, Apis,
           DummyIgn,     \* possible values of "made-up names match an ignore pattern"
           MaxX,         \* at most this many Adopt / Rename steps in a behaviour
           RenameSame,   \* schedule export: Names are name *classes*, a rename may stay in its class
-          KeepHist      \* schedule export: hist is recorded (it makes the state graph a tree)
+          KeepHist,     \* schedule export: hist is recorded (it makes the state graph a tree)
+          NHook         \* at most this many threads are started by per-test layer hooks
 
 Th == 1..NTh
 Idents == 1..NI
 Ph(i) == 100 + i       \* placeholder name of a thread unknown to threading
 Ad(th) == 200 + th     \* name threading makes up for an adopted thread
+Hk(t) == 100 + t       \* startedIn of a thread the testSetUp hook of test t started
 
 VARIABLES k, phase, st, ident, name, ignAtStart, api, known, startedIn, snap, report, used,
           hist, ops, xops, dummyIgn
@@ -106,6 +121,9 @@ TestStart == /\ phase = "between" /\ k < NT
              /\ k' = k + 1 /\ phase' = "in" /\ ops' = 0
              /\ snap' = IF "SnapshotAfterBody" \in Deviations THEN snap
                         ELSE IF "KeepSnapshot" \in Deviations /\ k >= 1 THEN snap
+                        \* (what the previous TestStop found running; never empty
+                        \* in the runner: the main thread is there)
+                        ELSE IF "SnapshotFromPrevStop" \in Deviations /\ k >= 1 THEN snap
                         \* the proxies, and what each of them wraps
                         ELSE {<<th, known[th]>> : th \in Running}
              /\ hist' = Log(<<"test", k + 1>>)
@@ -116,8 +134,11 @@ TestStart == /\ phase = "between" /\ k < NT
 CanAct == \/ phase = "in" /\ ops < MaxOps
           \/ phase = "between" /\ k = 0 /\ ops < NPre
 
-Start(th, i, n, a) ==
-  /\ CanAct /\ st[th] = "new"
+HookStarted == {th \in Th : startedIn[th] >= 100}
+CanHook == phase = "between" /\ k < NT /\ Cardinality(HookStarted) < NHook
+
+StartBy(th, i, n, a, hook) ==
+  /\ (IF hook THEN CanHook ELSE CanAct) /\ st[th] = "new"
   /\ \A o \in Th : o < th => st[o] # "new"          \* symmetry: threads in index order
   /\ i \notin RunningIdents
   /\ (~ReuseIdents => i \notin used)
@@ -127,10 +148,13 @@ Start(th, i, n, a) ==
   /\ st' = [st EXCEPT ![th] = "alive"] /\ ident' = [ident EXCEPT ![th] = i]
   /\ api' = [api EXCEPT ![th] = a] /\ known' = [known EXCEPT ![th] = (a = "threading")]
   /\ name' = [name EXCEPT ![th] = n] /\ ignAtStart' = [ignAtStart EXCEPT ![th] = Ign(n)]
-  /\ startedIn' = [startedIn EXCEPT ![th] = k]
-  /\ used' = used \cup {i} /\ ops' = ops + 1
-  /\ hist' = Log(<<"start", th, Ign(n), a, n>>)
+  /\ startedIn' = [startedIn EXCEPT ![th] = IF hook THEN Hk(k + 1) ELSE k]
+  /\ used' = used \cup {i} /\ ops' = IF hook THEN ops ELSE ops + 1
+  /\ hist' = Log(<<(IF hook THEN "hookstart" ELSE "start"), th, Ign(n), a, n>>)
   /\ UNCHANGED <<k, phase, snap, report, xops, dummyIgn>>
+
+Start(th, i, n, a) == StartBy(th, i, n, a, FALSE)
+HookStart(th, i, n, a) == StartBy(th, i, n, a, TRUE)
 
 End(th) == /\ phase = "in" /\ st[th] = "alive" /\ ops < MaxOps
            /\ st' = [st EXCEPT ![th] = "dead"] /\ ops' = ops + 1
@@ -175,14 +199,17 @@ TestStop == /\ phase = "in"
                             THEN {th \in new : \A o \in new : name[o] = name[th] => o <= th}
                             ELSE new
             /\ phase' = "between"
-            /\ UNCHANGED <<k, st, ident, name, ignAtStart, api, known, startedIn, snap, used, hist,
+            /\ snap' = IF "SnapshotFromPrevStop" \in Deviations
+                       THEN {<<th, known[th]>> : th \in Running} ELSE snap
+            /\ UNCHANGED <<k, st, ident, name, ignAtStart, api, known, startedIn, used, hist,
                            ops, xops, dummyIgn>>
 
 Next == \/ TestStart \/ TestStop
         \/ \E th \in Th : \/ End(th) \/ Adopt(th)
                           \/ \E n \in Names : Rename(th, n)
                           \/ \E i \in Idents, a \in Apis :
-                               \E n \in (IF a = "lowlevel" THEN {Ph(i)} ELSE Names) : Start(th, i, n, a)
+                               \E n \in (IF a = "lowlevel" THEN {Ph(i)} ELSE Names) :
+                                  Start(th, i, n, a) \/ HookStart(th, i, n, a)
 
 Spec == Init /\ [][Next]_vars
 
